@@ -269,8 +269,11 @@ func constPart(info *types.Info, e ast.Expr) (int, bool, bool) { // value, hasVa
 	return 0, false, false
 }
 
-func extractEdfOps(info *types.Info, body *ast.BlockStmt, encoder bool) edfOps {
+func extractEdfOps(info *types.Info, body *ast.BlockStmt, encoder bool, pkt string) edfOps {
 	var ops edfOps
+	if pkt == "" {
+		pkt = "packet"
+	}
 	var walk func(list []ast.Stmt)
 	handleExpr := func(e ast.Expr) {
 		ast.Inspect(e, func(n ast.Node) bool {
@@ -307,13 +310,13 @@ func extractEdfOps(info *types.Info, body *ast.BlockStmt, encoder bool) edfOps {
 				}
 				// guards: len(packet) < c
 				if be, ok := x.Cond.(*ast.BinaryExpr); ok && be.Op == token.LSS {
-					if strings.HasPrefix(types.ExprString(be.X), "len(packet)") {
+					if strings.HasPrefix(types.ExprString(be.X), "len("+pkt+")") {
 						if c, _, ok := constPart(info, be.Y); ok {
 							ops.guards = append(ops.guards, c)
 						}
 					}
 				}
-				if be, ok := x.Cond.(*ast.BinaryExpr); ok && be.Op == token.EQL && types.ExprString(be.X) == "len(packet)" {
+				if be, ok := x.Cond.(*ast.BinaryExpr); ok && be.Op == token.EQL && types.ExprString(be.X) == "len("+pkt+")" {
 					if c, _, ok := constPart(info, be.Y); ok && c == 0 {
 						ops.guards = append(ops.guards, 1)
 					}
@@ -327,8 +330,8 @@ func extractEdfOps(info *types.Info, body *ast.BlockStmt, encoder bool) edfOps {
 				}
 			case *ast.AssignStmt:
 				// packet = packet[c:]
-				if len(x.Lhs) == 1 && len(x.Rhs) == 1 && types.ExprString(x.Lhs[0]) == "packet" {
-					if se, ok := x.Rhs[0].(*ast.SliceExpr); ok && types.ExprString(se.X) == "packet" && se.Low != nil && se.High == nil {
+				if len(x.Lhs) == 1 && len(x.Rhs) == 1 && types.ExprString(x.Lhs[0]) == pkt {
+					if se, ok := x.Rhs[0].(*ast.SliceExpr); ok && types.ExprString(se.X) == pkt && se.Low != nil && se.High == nil {
 						if c, hv, ok := constPart(info, se.Low); ok {
 							ops.consts = append(ops.consts, c)
 							if hv {
@@ -388,8 +391,15 @@ func c11Widths(p *load.Program, r *core.Report) {
 		if _, s := skip[n]; s {
 			continue
 		}
-		e := extractEdfOps(info, encF[n].Body, true)
-		d := extractEdfOps(info, decF[n].Body, false)
+		// the name of the decoder's input parameter (the []byte one)
+		pkt := ""
+		for _, fld := range decF[n].Type.Params.List {
+			if t := info.TypeOf(fld.Type); t != nil && isByteSlice(t) && len(fld.Names) > 0 {
+				pkt = fld.Names[0].Name
+			}
+		}
+		e := extractEdfOps(info, encF[n].Body, true, "")
+		d := extractEdfOps(info, decF[n].Body, false, pkt)
 		key := "C11.E2|" + n
 		inst := "encode" + n + " / decode" + n + ": constant byte counts produced equal constant byte counts consumed, each advance is guarded"
 		ec := append([]int{}, e.consts...)
